@@ -9,7 +9,7 @@ Renderers turn one structured query into Python-flavoured or JavaScript-flavoure
     ['concat', e1, e2]  ['len', e]  ['arith', op, e1, e2]  ['cmp', op, e1, e2]
     ['and', e1, e2] ['or', e1, e2] ['not', e]  ['isnone', e]  ['like', e, pattern_literal]
     ['cond', c, e1, e2]  ['list', [e...]]  ['split', e, sep_literal]  ['tostr', e]
-    python only:  ['floordiv', e1, e2]  ['int_of', e]  ['upper', e]  ['pymax', e1, e2] ['pymin', e1, e2] ['pysum', [e...]]  ['float_of', e]
+    python only:  ['fstr', [text | e ...]]  ['floordiv', e1, e2]  ['int_of', e]  ['upper', e]  ['pymax', e1, e2] ['pymin', e1, e2] ['pysum', [e...]]  ['float_of', e]
 
 Items of a select list:
     {'kind': 'expr', 'expr': e, 'alias': name|None, 'as_kw': 'as'|'AS'}
@@ -165,6 +165,15 @@ def render_expr(e, ctx, lang):
             return 'sum([%s])' % ', '.join(R(x) for x in e[1])
         if t == 'pymaxl':
             return 'max([%s])' % ', '.join(R(x) for x in e[1])
+        if t == 'fstr':
+            # an f-string: literal pieces and replacement fields (column variables referenced nowhere but inside a string literal)
+            out = []
+            for part in e[1]:
+                if isinstance(part, str):
+                    out.append(part.replace('{', '{{').replace('}', '}}').replace('\\', '\\\\').replace("'", "\\'").replace('\n', '\\n').replace('\t', '\\t'))
+                else:
+                    out.append('{' + R(part) + '}')
+            return "f'" + ''.join(out) + "'"
         if t == 'pybuiltin':
             # lower-case min / max / sum over ONE iterable argument that is not a list: generator, map, tuple, iterator, set, reversed, dict keys
             func, form, xs = e[1], e[2], ', '.join(R(x) for x in e[3])
@@ -182,7 +191,7 @@ def is_neutral(e):
         return all(is_neutral(v) for v in e.values())
     if not isinstance(e, list):
         return True
-    if e and isinstance(e[0], str) and e[0] in ('int_of', 'float_of', 'pymax', 'pymin', 'pysum', 'pymaxl', 'pybuiltin', 'floordiv'):
+    if e and isinstance(e[0], str) and e[0] in ('int_of', 'float_of', 'pymax', 'pymin', 'pysum', 'pymaxl', 'pybuiltin', 'floordiv', 'fstr'):
         return False
     return all(is_neutral(x) for x in e)
 
